@@ -259,35 +259,49 @@ def _handler_entries(cfg, fn):
 
 
 def validation_steps(rep, prog):
+    """decided on the atomic facts that hold at each step (guards with locals expanded, negations folded): the edge set is
+    generated exactly when the flag is set; the orientation repair runs exactly when the flag is set and the surface is manifold;
+    an exception is thrown exactly when the flag is set and the surface is not manifold"""
+    from ..model import facts_at
     fn = prog.fn("cell::initialize_cell_properties")
     fi = prog.index(fn)
     p0 = fn["params"][0]["did"]
-    def guarded_by_flag(n):
-        for cond, pol in fi.guards(n):
-            c = strip(cond)
-            if c.get("k") == "DeclRefExpr" and c["ref"]["did"] == p0 and pol:
-                return True
-        return False
+
+    def classify(n):
+        flag = manifold = None
+        other = []
+        for a_, t_ in facts_at(fn, fi, n):
+            a0 = strip(a_)
+            while a0.get("k") == "ParenExpr" and a0.get("c"):
+                a0 = strip(a0["c"][0])
+            if a0.get("k") == "DeclRefExpr" and (a0.get("ref") or {}).get("did") == p0:
+                flag = t_ if flag is None else (flag and t_)
+            elif a0.get("k") == "CXXMemberCallExpr" and a0.get("callee") == "cell::is_manifold":
+                manifold = t_
+            else:
+                other.append(a_)
+        return flag, manifold, other
     calls = {}
     for n in walk(fn["body"]):
-        if is_call(n) and n.get("callee") in ("cell::generate_edge_set", "cell::check_face_normal_orientation", "cell::is_manifold"):
+        if is_call(n) and n.get("callee") in ("cell::generate_edge_set", "cell::check_face_normal_orientation"):
             calls.setdefault(n["callee"], []).append(n)
-    for name in ("cell::generate_edge_set", "cell::check_face_normal_orientation"):
-        ns = [n for n in calls.get(name, []) if guarded_by_flag(n) and sum(1 for a, s_, c_ in fi.ancestors(n) if a.get("k") in ("IfStmt", "ForStmt", "WhileStmt", "CXXForRangeStmt", "ConditionalOperator", "SwitchStmt")) == 1]
+    for name, want_manifold in (("cell::generate_edge_set", (None,)), ("cell::check_face_normal_orientation", (None, True))):
+        ns = []
+        for n in calls.get(name, []):
+            flag, manifold, other = classify(n)
+            if flag is True and manifold in want_manifold and not other and fi.enclosing(n, ("ForStmt", "WhileStmt", "CXXForRangeStmt", "SwitchStmt")) is None:
+                ns.append(n)
         if ns:
-            rep.ok("C13.validation-steps", prog, fn, ns[0], "%s runs whenever check_cell_integrity is true" % name)
+            rep.ok("C13.validation-steps", prog, fn, ns[0], "%s runs whenever check_cell_integrity is true%s" % (name, " (and the surface is manifold)" if name.endswith("orientation") else ""))
         else:
             rep.violation("C13.validation-steps", prog, fn, None, "%s missing" % name, "initialize_cell_properties(true) no longer unconditionally calls %s" % name)
     ok = False
-    for n in calls.get("cell::is_manifold", []):
-        p, slot = fi.parent.get(id(n), (None, None))
-        # if(!is_manifold()) throw
-        for a, s, ch in fi.ancestors(n):
-            if a.get("k") == "IfStmt" and s == "cond":
-                c = strip(a["cond"])
-                if c.get("k") == "UnaryOperator" and c.get("op") == "!" and always_exits(a["then"]) and any(x.get("k") == "CXXThrowExpr" for x in walk(a["then"])) and guarded_by_flag(a):
-                    ok = True
-                    rep.ok("C13.validation-steps", prog, fn, a, "if(!is_manifold()) throw ... under check_cell_integrity")
+    for t in walk(fn["body"]):
+        if t.get("k") == "CXXThrowExpr":
+            flag, manifold, other = classify(t)
+            if flag is True and manifold is False and not other:
+                ok = True
+                rep.ok("C13.validation-steps", prog, fn, t, "throws exactly when check_cell_integrity is set and is_manifold() is false")
     if not ok:
         rep.violation("C13.validation-steps", prog, fn, None, "is_manifold test missing", "initialize_cell_properties(true) does not throw when is_manifold() is false")
 
